@@ -749,8 +749,12 @@ impl Monitors {
     }
 
     fn process_launch_log(&mut self, world: &World, obs: &mut Obs) {
+        self.process_launch_log_until(world, obs, usize::MAX);
+    }
+
+    fn process_launch_log_until(&mut self, world: &World, obs: &mut Obs, end: usize) {
         let l = world.launch.borrow();
-        while self.l_idx < l.log.len() {
+        while self.l_idx < l.log.len().min(end) {
             let (step, _ms, ev) = &l.log[self.l_idx];
             self.l_idx += 1;
             let step = *step;
@@ -850,6 +854,8 @@ impl Monitors {
             if !m.processed {
                 continue;
             }
+            // what the launcher logged before this message was handed over happened before it
+            self.process_launch_log_until(world, obs, m.log_pos);
             match &m.body {
                 ToW::Compute(items) => {
                     for it in items {
@@ -867,7 +873,7 @@ impl Monitors {
                         for (exec, (w, tt, _)) in &self.exec_info {
                             if w == &m.worker
                                 && tt == t
-                                && l.live.get(exec).is_some_and(|e| e.start_step < m.step)
+                                && l.live.get(exec).is_some_and(|e| e.start_step < m.step && !e.stopping)
                             {
                                 obs.alarm(
                                     "C08",
@@ -1509,12 +1515,80 @@ impl Monitors {
             return;
         }
         obs.class("message-rest");
+        // server and workers agree on who holds what: an assigned task was started or rejected,
+        // a retraction was answered, the backlog of a worker is exactly what the server prefilled
+        let worker_ok = |w: &WorkerId| {
+            world.workers.get(w).is_some_and(|x| x.alive)
+                && !world.launch.borrow().dead_workers.contains(w)
+        };
+        for ts in &snap.tasks {
+            match &ts.state {
+                TaskStateSnap::Assigned { worker_id, .. } if worker_ok(worker_id) => {
+                    obs.alarm(
+                        "C02",
+                        step,
+                        "task stays assigned to a connected worker that neither started nor rejected it, with no message in flight",
+                        format!("{} on w{worker_id}", ts.id),
+                    );
+                }
+                TaskStateSnap::Retracting { worker_id } if worker_ok(worker_id) => {
+                    obs.alarm(
+                        "C02",
+                        step,
+                        "task stays in retraction from a connected worker with no message in flight",
+                        format!("{} from w{worker_id}", ts.id),
+                    );
+                }
+                TaskStateSnap::Prefilled { worker_id } if worker_ok(worker_id) => {
+                    let held = world.workers[worker_id]
+                        .sim
+                        .snapshot()
+                        .prefilled
+                        .iter()
+                        .any(|(_, ts2)| ts2.contains(&ts.id));
+                    if !held {
+                        obs.alarm(
+                            "C02",
+                            step,
+                            "task prefilled on a connected worker is not in that worker's backlog, with no message in flight",
+                            format!("{} on w{worker_id}", ts.id),
+                        );
+                    }
+                }
+                _ => {}
+            }
+        }
+        for (w, ws) in &world.workers {
+            if !worker_ok(w) {
+                continue;
+            }
+            for (_, backlog) in &ws.sim.snapshot().prefilled {
+                for t in backlog {
+                    let ok = snap.tasks.iter().any(|x| {
+                        x.id == *t
+                            && matches!(&x.state, TaskStateSnap::Prefilled { worker_id } if worker_id == w)
+                    });
+                    if !ok {
+                        obs.alarm(
+                            "C06",
+                            step,
+                            "worker keeps a task in its backlog that the server does not consider prefilled there, with no message in flight",
+                            format!(
+                                "{t} in the backlog of w{w}; server state {:?}",
+                                snap.tasks.iter().find(|x| x.id == *t).map(|x| &x.state)
+                            ),
+                        );
+                    }
+                }
+            }
+        }
         let l = world.launch.borrow();
         for e in l.live.values() {
             if l.dead_workers.contains(&e.worker)
                 || !world.workers.get(&e.worker).is_some_and(|w| w.alive)
                 || !snap.workers.iter().any(|w| w.id == e.worker)
                 || e.resolver.is_none()
+                || e.stopping
             {
                 continue;
             }
@@ -1956,7 +2030,7 @@ impl Monitors {
                     // a live execution must be told to stop: CancelTasks queued to its worker
                     let l = world.launch.borrow();
                     for e in l.live.values() {
-                        if e.task == t && !l.dead_workers.contains(&e.worker) {
+                        if e.task == t && !l.dead_workers.contains(&e.worker) && !e.stopping {
                             let told = obs.to_worker_sent.iter().any(|m| {
                                 m.worker == e.worker
                                     && m.step == step
@@ -2048,7 +2122,7 @@ impl Monitors {
         let l = world.launch.borrow();
         for e in l.live.values() {
             let alive = world.workers.get(&e.worker).is_some_and(|w| w.alive);
-            if !alive {
+            if !alive || e.stopping {
                 continue;
             }
             if let Some(tm) = self.tasks.get(&e.task) {
@@ -2156,6 +2230,16 @@ impl Monitors {
                                 "worker resources are not conserved: free plus held differs from the size of the resource",
                                 format!("w{w} resource {rid}: {}; running {:?}", bad.join("; "), wsnap.running.iter().map(|r| r.task_id).collect::<Vec<_>>()),
                             );
+                            // "the resources reserved for it are released" (C08): the worker was
+                            // told about a cancel and now misses resources that nobody holds
+                            if self.cancel_delivered.iter().any(|(cw, _)| cw == w) {
+                                obs.alarm(
+                                    "C08",
+                                    step,
+                                    "a worker that processed a cancel misses resources that no running task holds",
+                                    format!("w{w} resource {rid}: {}", bad.join("; ")),
+                                );
+                            }
                         }
                     }
                 }
